@@ -65,7 +65,7 @@ def run(ch, ctx):
                 k += 1
             if world.step() is None:
                 raise Stuck('no operation available while the hand is not over')
-        check(world, cfg, compression, hand_number, partial, ctx)
+        check(world, cfg, compression, hand_number, partial, ctx, ch)
     except (Violation, EngineCrash, Stuck):
         if world is not None:
             note_trace(world, ctx)
@@ -88,7 +88,7 @@ def lines_of(hh, pos, what):
                         rule='acpc_exc', exc=type(e).__name__)
 
 
-def check(world, cfg, compression, hand_number, partial, ctx):
+def check(world, cfg, compression, hand_number, partial, ctx, ch=None):
     st = world.state
     n = cfg['n']
     nl = cfg['variant'] == 'NT'
@@ -126,6 +126,20 @@ def check(world, cfg, compression, hand_number, partial, ctx):
                                 f'prefix of the full hand\'s dialogue (message #{i}: {got[i] if i < len(got) else None!r} vs '
                                 f'{full[pos][i] if i < len(full[pos]) else None!r})', rule='crash_prefix')
             ctx.count('prefix_dialogues_compared')
+    # fault omitted_steps: the same hand written without the folds and free checks a reader can infer (C16's fault) must
+    # produce the same dialogue for every seat
+    if ch is not None and ch.chance('c17.omit', 1, 3):
+        from .c16 import omitted_steps
+        h_omit = omitted_steps(ch, st, HandHistory.from_game_state(world.game, st, False, hand=hand_number), ctx, only_build=True)
+        if h_omit is not None:
+            for pos in range(n):
+                got = lines_of(h_omit, pos, 'hand with inferable lines left out')
+                if got != full[pos]:
+                    i = next((j for j, (a, b) in enumerate(zip(got, full[pos])) if a != b), min(len(got), len(full[pos])))
+                    raise Violation('C17.omitted', f'seat {pos}: with the inferable folds/checks left out of the action list '
+                                    f'message #{i} is {got[i] if i < len(got) else None!r}, for the fully written hand '
+                                    f'{full[pos][i] if i < len(full[pos]) else None!r}', rule='omitted')
+            ctx.count('omitted_step_dialogues_compared')
     if not nl:
         return
     line = hh.to_pluribus_protocol()
